@@ -1,4 +1,5 @@
 import LolHtml.Lemmas.StreamLocations
+import LolHtml.Lemmas.LocationsOk
 import LolHtml.Lemmas.SpecAttrsWf
 import LolHtml.Model.AttrsApi
 import LolHtml.Thm.C01
@@ -9,12 +10,13 @@ import LolHtml.Thm.C01
   and its raw bytes are exactly the bytes of the input slice in the lexeme's raw range; the length of
   `src` is the length of the raw bytes.
 * `C14_offset` — `previously_consumed` after a `parse` is its value before plus the bytes consumed.
-* `C14_ranges` — for every table, every settings record, every history `write* ; end` (any chunking,
-  errors included) and every controller that does not switch emission off and whose token callback
-  does not fail (`Tame`; handlers may rewrite tokens arbitrarily): the source ranges of the tokens handed
-  to the controller, in the order they were handed over, are well-formed, ordered and pairwise disjoint —
-  within a `write` and across `write`s; the closing (`last_in_text_node`) chunk of a text node is the
-  empty range located exactly where the node's last chunk ended.
+* `C14_ranges` — for every table whose sink-calling actions are written with `?` (`EmitsChecked`, checked on the generated
+  table), every settings record, every history `write* ; end` (any chunking, errors included) and every controller
+  that does not switch emission off (`NoRemoval`; handlers may rewrite tokens arbitrarily and may FAIL): the source
+  ranges of the tokens handed to the controller, in the order they were handed over, are well-formed, ordered and
+  pairwise disjoint — within a `write` and across `write`s; the closing (`last_in_text_node`) chunk of a text node is
+  the empty range located exactly where the node's last chunk ended. (`C14_ranges_tame`: the same for EVERY table when
+  the token callback never fails.)
 * `C14_attr_locations` — for a start tag read by `Spec.Attrs` at `[i, j)`: the token built from the
   lexeme of `C16_outline` reports, for every attribute, name / value locations `base + outline` that
   are exactly the document ranges of the name / value bytes, lie strictly inside the tag's range, and
@@ -96,8 +98,8 @@ theorem writeAll_RInv {w : World γ} {log : γ → List Token} (hlog : Logging w
   | nil => exact h
   | cons c cs ih => exact ih _ (write_RInv hlog htame r c h)
 
-/-- **C14_ranges.** -/
-theorem C14_ranges (w : World γ) (log : γ → List Token) (hlog : Logging w.ctl log) (htame : Tame w.ctl)
+/-- C14_ranges for EVERY table, under the additional assumption that the token callback never fails (`Tame`). -/
+theorem C14_ranges_tame (w : World γ) (log : γ → List Token) (hlog : Logging w.ctl log) (htame : Tame w.ctl)
     (g : γ) (hg : log g = []) (cfg : Settings) (chunks : List Bytes) :
     Ordered (log (run w (Rewriter.new w g cfg) chunks).1.stream.disp.ctl) := by
   unfold run
@@ -113,10 +115,64 @@ theorem C14_ranges (w : World γ) (log : γ → List Token) (hlog : Logging w.ct
     split <;> exact this
 
 /-- ... and after every prefix of the writes (so also when a later call fails) -/
-theorem C14_ranges_prefix (w : World γ) (log : γ → List Token) (hlog : Logging w.ctl log) (htame : Tame w.ctl)
+theorem C14_ranges_prefix_tame (w : World γ) (log : γ → List Token) (hlog : Logging w.ctl log) (htame : Tame w.ctl)
     (g : γ) (hg : log g = []) (cfg : Settings) (chunks : List Bytes) :
     Ordered (log (writeAll w (Rewriter.new w g cfg) chunks).1.stream.disp.ctl) :=
   (writeAll_RInv hlog htame chunks _ (new_RInv w log g cfg hg)).1
+
+/-! ### … for handlers that may fail -/
+
+/-- **Side-condition on the current code**: every sink-calling action of the generated table is written with `?`
+(so that a failing sink call stops the action list). `emitsCheckedWitness` names the offending arms. -/
+theorem emitsChecked_gen : EmitsChecked Gen.Syntax.table = true := by decide +kernel
+
+theorem emitsCheckedWitness_gen : emitsCheckedWitness Gen.Syntax.table = [] := by decide +kernel
+
+theorem write_RInv_ok {w : World γ} {log : γ → List Token} (hlog : Logging w.ctl log) (hnr : NoRemoval w.ctl)
+    (ht : EmitsChecked w.tbl = true) (r : Rewriter γ) (data : Bytes) (h : RInv log r) : RInv log (r.write w data).1 := by
+  unfold Model.Rewriter.write
+  split
+  · exact h
+  · rename_i hp
+    have hp' : r.poisoned = false := by simpa using hp
+    obtain ⟨ho, hok⟩ := Stream.write_LocInv_ok hlog hnr ht r.stream data (h.2 hp')
+    dsimp only
+    split
+    · rename_i hres
+      exact ⟨ho, fun _ => hok hres⟩
+    · exact ⟨ho, fun hc => by simp at hc⟩
+
+theorem writeAll_RInv_ok {w : World γ} {log : γ → List Token} (hlog : Logging w.ctl log) (hnr : NoRemoval w.ctl)
+    (ht : EmitsChecked w.tbl = true) (chunks : List Bytes) (r : Rewriter γ) (h : RInv log r) :
+    RInv log (writeAll w r chunks).1 := by
+  induction chunks generalizing r with
+  | nil => exact h
+  | cons c cs ih => exact ih _ (write_RInv_ok hlog hnr ht r c h)
+
+/-- **C14_ranges.** For every table whose sink-calling actions are written with `?` (`EmitsChecked`, true of the
+generated table), every tag configuration, settings record, history `write* ; end` (any chunking, failing calls
+included) and EVERY controller that does not switch emission off — handlers may rewrite tokens arbitrarily and may
+fail at any point —: the source ranges of the tokens handed to the controller, in the order they were handed over, are
+well-formed, ordered and pairwise disjoint, within a `write` and across `write`s. -/
+theorem C14_ranges (w : World γ) (log : γ → List Token) (hlog : Logging w.ctl log) (hnr : NoRemoval w.ctl)
+    (ht : EmitsChecked w.tbl = true) (g : γ) (hg : log g = []) (cfg : Settings) (chunks : List Bytes) :
+    Ordered (log (run w (Rewriter.new w g cfg) chunks).1.stream.disp.ctl) := by
+  unfold run
+  have h := writeAll_RInv_ok hlog hnr ht chunks _ (new_RInv w log g cfg hg)
+  dsimp only
+  unfold Model.Rewriter.end
+  split
+  · exact h.1
+  · rename_i hp
+    have hp' : (writeAll w (Rewriter.new w g cfg) chunks).1.poisoned = false := by simpa using hp
+    have := Stream.end_ordered_ok hlog hnr ht _ (h.2 hp')
+    dsimp only
+    split <;> exact this
+
+theorem C14_ranges_prefix (w : World γ) (log : γ → List Token) (hlog : Logging w.ctl log) (hnr : NoRemoval w.ctl)
+    (ht : EmitsChecked w.tbl = true) (g : γ) (hg : log g = []) (cfg : Settings) (chunks : List Bytes) :
+    Ordered (log (writeAll w (Rewriter.new w g cfg) chunks).1.stream.disp.ctl) :=
+  (writeAll_RInv_ok hlog hnr ht chunks _ (new_RInv w log g cfg hg)).1
 
 /-- what `Ordered` says, spelled out: any two tokens, the earlier one ends before the later one starts -/
 theorem Ordered.disjoint {l : List Token} (h : Ordered l) (i j : Nat) (hij : i < j) (hj : j < l.length) :
@@ -192,10 +248,10 @@ theorem constCtl_tame (f : Nat) : Tame (constCtl f) where
   tokenOk := fun _ _ => rfl
 
 /-- C14_ranges on the generated table, all capture-flag settings -/
-theorem C14_ranges_gen (f : Nat) (cfg : Settings) (chunks : List Bytes) :
+theorem C14_ranges_tame_gen (f : Nat) (cfg : Settings) (chunks : List Bytes) :
     Ordered (run ⟨Gen.Syntax.table, Gen.Tags.cfg, withLog (constCtl f)⟩
       (Rewriter.new ⟨Gen.Syntax.table, Gen.Tags.cfg, withLog (constCtl f)⟩ ((), []) cfg) chunks).1.stream.disp.ctl.2 :=
-  C14_ranges ⟨Gen.Syntax.table, Gen.Tags.cfg, withLog (constCtl f)⟩ (·.2) (withLog_logging _)
+  C14_ranges_tame ⟨Gen.Syntax.table, Gen.Tags.cfg, withLog (constCtl f)⟩ (·.2) (withLog_logging _)
     (withLog_tame _ (constCtl_tame f)) ((), []) rfl cfg chunks
 
 /-- non-vacuity: `<div a=b>x<!--c--></div>` in three writes, everything captured: 7 tokens
@@ -204,6 +260,31 @@ example : ((run ⟨Gen.Syntax.table, Gen.Tags.cfg, withLog (constCtl 31)⟩
       (Rewriter.new ⟨Gen.Syntax.table, Gen.Tags.cfg, withLog (constCtl 31)⟩ ((), []) {}) sampleChunks).1.stream.disp.ctl.2.map
         fun t => (t.src.start, t.src.end))
     = [(0, 9), (9, 10), (10, 10), (10, 18), (18, 24)] := by decide +kernel
+
+/-- a controller whose handler fails on every comment (after having been handed the token) -/
+def failOnComment : Controller Unit :=
+  { constCtl 31 with
+    token := fun _ t => ((), match t with
+      | .comment .. => { chunks := [], err := some .handler }
+      | t => { chunks := [t.raw] }) }
+
+theorem failOnComment_noRemoval : NoRemoval (withLog failOnComment) := fun _ => rfl
+
+/-- C14_ranges on the generated table for that failing controller -/
+theorem C14_ranges_gen (cfg : Settings) (chunks : List Bytes) :
+    Ordered (run ⟨Gen.Syntax.table, Gen.Tags.cfg, withLog failOnComment⟩
+      (Rewriter.new ⟨Gen.Syntax.table, Gen.Tags.cfg, withLog failOnComment⟩ ((), []) cfg) chunks).1.stream.disp.ctl.2 :=
+  C14_ranges ⟨Gen.Syntax.table, Gen.Tags.cfg, withLog failOnComment⟩ (·.2) (withLog_logging _)
+    failOnComment_noRemoval emitsChecked_gen ((), []) rfl cfg chunks
+
+/-- non-vacuity: the same three writes; the third one fails at the comment (which was handed over), `end` is then refused -/
+example : (run ⟨Gen.Syntax.table, Gen.Tags.cfg, withLog failOnComment⟩
+      (Rewriter.new ⟨Gen.Syntax.table, Gen.Tags.cfg, withLog failOnComment⟩ ((), []) {}) sampleChunks).2
+    = [.ok, .ok, .err .handler, .panicUseAfterError] := by decide +kernel
+example : ((run ⟨Gen.Syntax.table, Gen.Tags.cfg, withLog failOnComment⟩
+      (Rewriter.new ⟨Gen.Syntax.table, Gen.Tags.cfg, withLog failOnComment⟩ ((), []) {}) sampleChunks).1.stream.disp.ctl.2.map
+        fun t => (t.src.start, t.src.end))
+    = [(0, 9), (9, 10), (10, 10), (10, 18)] := by decide +kernel
 
 /-! ### attribute locations -/
 
